@@ -140,9 +140,12 @@ Definition resolve_type (v : value) : res (bool * Z) :=
   | _ => Err
   end.
 
+(* match.go:303-318 the callback of matchType: a missing field has no type *)
 Definition type_test (number_class : bool) (want : list Z) (field : value) : res bool :=
-  Ok ((number_class && class_eqb (class_of field) CNumber)
-      || existsb (fun t => (t =? type_of field)%Z) want).
+  if is_missing field then Ok false
+  else
+    Ok ((number_class && class_eqb (class_of field) CNumber)
+        || existsb (fun t => (t =? type_of field)%Z) want).
 
 (* match.go:276 matchType *)
 Definition match_type (d : doc) (path : string) (v : value) : res bool :=
@@ -167,7 +170,9 @@ Definition all_test (v field : value) : res bool :=
       let contains :=
         match field with
         | VArr arr =>
-            forallb (fun value => existsb (fun element => is_eq (compare value element)) arr) array
+            (* a value matches the whole array or one of its elements *)
+            forallb (fun value => is_eq (compare value field)
+                                  || existsb (fun element => is_eq (compare value element)) arr) array
         | _ => false
         end in
       Ok (contains || forallb (fun item => is_eq (compare field item)) array)
